@@ -10,6 +10,7 @@ mod export_crash;
 mod access_list;
 mod validator;
 mod udp_codec;
+mod ws_swarm;
 
 use std::collections::HashMap;
 
@@ -109,6 +110,7 @@ fn main() {
         "access-list" => access_list::run(&args),
         "validator" => validator::run(&args),
         "udp-codec" => udp_codec::run(&args),
+        "ws-swarm" => ws_swarm::run(&args),
         "export-child" => export_crash::child(&args),
         other => {
             eprintln!("unknown suite {}", other);
